@@ -18,6 +18,12 @@ to the rounding of its 2–3 operations (the Float32 run of the driver compares 
 
 Summary of what holds and what does not:
 
+* sign convention: both bounds are ADDED to the centre whatever their sign (`da_bounds_def`, `ppm_bounds_def`):
+  a positive lower offset / negative upper offset puts the centre outside the window
+  (`da_positive_lower_excludes_centre`, …), `hi < lo` is the empty window (`da_empty_iff`, `ppm_empty_iff`); the
+  "normalised" form `[c − |lo|, c + |hi|]` equals the definition only for `lo ≤ 0 ≤ hi` (`mirrored_lower_iff`,
+  `mirrored_upper_iff`) — for offset tolerances it is a different, mirrored window;
+
 * the window contains its centre when `lo ≤ 0 ≤ hi` — for `Da` always, for `ppm`/`Pct` **only for a
   non-negative centre** (`ppm_contains_centre`, counter-example `ppm_centre_negative_escapes`);
 * both edges are monotone in the centre iff the tolerance is `≥ −10⁶` ppm (`≥ −100` %); strictly for `>`
@@ -187,6 +193,94 @@ theorem da_charge_window (preTol : Tol α) (lo hi preMass mz z : α) :
 /-- **C03.pct_fragment_rejected** — a `Pct` fragment tolerance is the `unreachable!` panic. -/
 theorem pct_fragment_rejected (preTol : Tol α) (lo hi preMass mz z : α) :
     win preTol (.pct lo hi) preMass mz z = none := rfl
+
+/-! ## the sign convention: bounds are ADDED to the centre, whatever their sign -/
+
+/-- **C03.da_bounds_def** — `Da(lo, hi)` around `c` is `[c + lo, c + hi]`: both bounds are added, a positive
+`lo` moves the lower edge ABOVE the centre, a negative `hi` moves the upper edge BELOW it. -/
+theorem da_bounds_def (lo hi c : α) : bnd (.da lo hi) c = (c + lo, c + hi) := rfl
+
+/-- **C03.ppm_bounds_def** — `ppm(lo, hi)` around `c` is `[c + c·lo/10⁶, c + c·hi/10⁶]` (the code's order of
+operations: `(c * lo) / 1e6`, then the sum). -/
+theorem ppm_bounds_def (lo hi c : α) :
+    bnd (.ppm lo hi) c = (c + c * lo / 1000000, c + c * hi / 1000000) := rfl
+
+/-- **C03.pct_bounds_def** -/
+theorem pct_bounds_def (lo hi c : α) : bnd (.pct lo hi) c = (c + c * lo / 100, c + c * hi / 100) := rfl
+
+/-- **C03.da_positive_lower_excludes_centre** — with a positive lower offset the centre is outside (below) the window. -/
+theorem da_positive_lower_excludes_centre (lo hi c : α) (h : 0 < lo) : c < (bnd (.da lo hi) c).1 := by
+  simp only [bnd, Tol.bounds]; linarith
+
+/-- **C03.da_negative_upper_excludes_centre** — with a negative upper offset the centre is above the window. -/
+theorem da_negative_upper_excludes_centre (lo hi c : α) (h : hi < 0) : (bnd (.da lo hi) c).2 < c := by
+  simp only [bnd, Tol.bounds]; linarith
+
+/-- **C03.ppm_positive_lower_excludes_centre** — same for ppm and a positive centre. -/
+theorem ppm_positive_lower_excludes_centre (lo hi c : α) (hc : 0 < c) (h : 0 < lo) :
+    c < (bnd (.ppm lo hi) c).1 := by
+  simp only [bnd, Tol.bounds]
+  have : 0 < c * lo / 1000000 := div_pos (mul_pos hc h) (by norm_num)
+  linarith
+
+/-- **C03.ppm_negative_upper_excludes_centre** -/
+theorem ppm_negative_upper_excludes_centre (lo hi c : α) (hc : 0 < c) (h : hi < 0) :
+    (bnd (.ppm lo hi) c).2 < c := by
+  simp only [bnd, Tol.bounds]
+  have : c * hi / 1000000 < 0 := div_neg_of_neg_of_pos (mul_neg_of_pos_of_neg hc h) (by norm_num)
+  linarith
+
+/-- **C03.mirrored_lower_iff** — the "normalised" lower edge `c − |lo|` is the defined edge `c + lo` exactly
+when `lo ≤ 0`: for a positive lower offset it is a DIFFERENT (mirrored, wider) window. -/
+theorem mirrored_lower_iff (lo c : α) : c - |lo| = c + lo ↔ lo ≤ 0 := by
+  constructor
+  · intro h
+    have : |lo| = -lo := by linarith
+    exact abs_eq_neg_self.mp this
+  · intro h
+    rw [abs_of_nonpos h]; ring
+
+/-- **C03.mirrored_upper_iff** — likewise `c + |hi| = c + hi` exactly when `0 ≤ hi`. -/
+theorem mirrored_upper_iff (hi c : α) : c + |hi| = c + hi ↔ 0 ≤ hi := by
+  constructor
+  · intro h
+    have : |hi| = hi := by linarith
+    exact abs_eq_self.mp this
+  · intro h
+    rw [abs_of_nonneg h]
+
+/-- **C03.da_empty_iff** — the window is empty (upper edge below lower edge) exactly when `hi < lo`;
+zero width when `lo = hi`. -/
+theorem da_empty_iff (lo hi c : α) : (bnd (.da lo hi) c).2 < (bnd (.da lo hi) c).1 ↔ hi < lo := by
+  simp only [bnd, Tol.bounds]
+  constructor <;> intro h <;> linarith
+
+/-- **C03.ppm_empty_iff** — for a positive centre. -/
+theorem ppm_empty_iff (lo hi c : α) (hc : 0 < c) :
+    (bnd (.ppm lo hi) c).2 < (bnd (.ppm lo hi) c).1 ↔ hi < lo := by
+  simp only [bnd, Tol.bounds]
+  have hk : (0 : α) < 1000000 := by norm_num
+  constructor
+  · intro h
+    have h1 : c * hi / 1000000 < c * lo / 1000000 := by linarith
+    have h2 : c * hi < c * lo := (div_lt_div_iff_of_pos_right hk).mp h1
+    exact lt_of_mul_lt_mul_left h2 hc.le
+  · intro h
+    have h2 : c * hi < c * lo := mul_lt_mul_of_pos_left h hc
+    have h1 : c * hi / 1000000 < c * lo / 1000000 := (div_lt_div_iff_of_pos_right hk).mpr h2
+    linarith
+
+/-- the two windows of the seeded change C03-J: `Da(0.25, 1.0)` around 500 is `[500.25, 501]`, not `[499.75, 501]`;
+    precursor `Da(100, 900)` around 1000 is `[1100, 1900]`, not `[900, 1900]` -/
+example : bnd (.da (1/4) 1) (500 : ℚ) = (500 + 1/4, 501) := by simp only [bnd, Tol.bounds]; norm_num
+example : bnd (.da 100 900) (1000 : ℚ) = (1100, 1900) := by simp only [bnd, Tol.bounds]; norm_num
+example : (500 : ℚ) - |1/4| ≠ (bnd (.da (1/4) 1) (500 : ℚ)).1 := by
+  simp only [bnd, Tol.bounds]; norm_num [abs_of_pos]
+example : (500 : ℚ) < (bnd (.da (1/4) 1) (500 : ℚ)).1 := da_positive_lower_excludes_centre _ _ _ (by norm_num)
+/-- both negative, inverted, zero width at an offset -/
+example : bnd (.da (-1) (-1/4)) (500 : ℚ) = (499, 500 - 1/4) := by simp only [bnd, Tol.bounds]; norm_num
+example : (bnd (.da 1 (-1)) (500 : ℚ)).2 < (bnd (.da 1 (-1)) (500 : ℚ)).1 := (da_empty_iff _ _ _).mpr (by norm_num)
+example : bnd (.ppm 2000 2000) (500 : ℚ) = (501, 501) := by simp only [bnd, Tol.bounds]; norm_num
 
 /-! ## non-vacuity: concrete instances over ℚ -/
 
